@@ -3,12 +3,15 @@
   request : `xform <name> <params> <schemas>`      one transformation
             `xform seq ((<name> <params>) …) <schemas>`   a configuration file with several
             `xform str <fn> "<s>" ["<t>"]`         string helpers (eqfold, trim, ucc, objref, fieldref)
+            `xform spec <name> <params> <schemas>`  the Lean specification `T.spec p S` (what the theorems are about)
+            `xform pred <name> <params> <schemas>`  `wf=<b> hyp=<b> notarget=<b>`: WF, hypotheses of the partial theorem, no target
             `xform witness <i>`                    i-th counterexample witness: `<theorem> <quirk> <request>` | `end`
   reply   : `ok <schemas>` | `err` | `panic`   (nil-`Hints` marks are not printed)
 -/
 import Cog.IR.Vir
 import Cog.Xform.Yaml
 import Cog.Xform.Witness
+import Cog.Xform.SpecAll
 namespace Cog.Drv
 open Cog Cog.IR Cog.Xform
 
@@ -154,6 +157,20 @@ def xformLine (rest : String) : String :=
       | some w => witnessLine w
       | none => "end"
     | none => "bad-request"
+  | some [.atom "spec", .atom name, .list ps, ss] =>
+    match rawIn name ps, Vir.schemasIn ss with
+    | some raw, some S => match raw.load with
+      | some t => reply (.ok (t.spec (deepCopySchemas S)))
+      | none => "err"
+    | _, _ => "bad-request"
+  | some [.atom "pred", .atom name, .list ps, ss] =>
+    match rawIn name ps, Vir.schemasIn ss with
+    | some raw, some S => match raw.load with
+      | some t =>
+        let S0 := deepCopySchemas S
+        s!"wf={wfB S0} hyp={t.hyp S0} notarget={t.noTarget S0}"
+      | none => "err"
+    | _, _ => "bad-request"
   | some [.atom "seq", .list xs, ss] =>
     match rawSeqIn xs, Vir.schemasIn ss with
     | some raw, some S => reply (loadAndProcess raw S)
